@@ -86,16 +86,18 @@ inline std::vector<Family> families(bool thorough, uint64_t seed, int seqlen /*0
 	// ---- last-writer bookkeeping: [writer of r][observable X][w][observable X][CBRANCH r] for every Sigma word w and register r,
 	//      so that "does w count as a modification of r" must be answered identically by every translator (code is emitted
 	//      between the candidate targets, unlike with the no-op filler)
-	fam.push_back({ "writer", (uint64_t)S->size() * 8 * 2, [=](uint64_t idx, bool v2, ProgBuf& p) {
+	fam.push_back({ "writer", (uint64_t)S->size() * 8 * 4, [=](uint64_t idx, bool v2, ProgBuf& p) {
 		set_config_block(p, (int)(idx % ncfg));
 		p.fill_noop();
-		int r = (int)(idx % 8); bool at_start = (idx / 8) % 2; const Word& w = (*S)[idx / 16];
-		int base = at_start ? 0 : prog_size(v2) - 6;
+		int r = (int)(idx % 8); bool at_start = (idx / 8) % 2; bool twice = (idx / 16) % 2; const Word& w = (*S)[idx / 32];
+		int base = at_start ? 0 : prog_size(v2) - 7;
 		Word X = W(op_of("FSCAL_R"), 1, 0, 0, 0), Y = W(op_of("ISTORE"), (r + 1) & 7, (r + 2) & 7, 0x11, 64);
-		p.set_word(base + 0, W(op_of("IADD_RS"), r, (r + 3) & 7, 0, 0x55));
-		p.set_word(base + 1, X); p.set_word(base + 2, w); p.set_word(base + 3, Y);
-		p.set_word(base + 4, W(op_of("CBRANCH"), r, 0, (int)((idx % 16) << 4), 0x00020000u << (idx % 5)));
-		p.set_word(base + 5, X);
+		int k = base;
+		p.set_word(k++, W(op_of("IADD_RS"), r, (r + 3) & 7, 0, 0x55));
+		p.set_word(k++, X); p.set_word(k++, w); if (twice) p.set_word(k++, w);   // the same word twice in a row: translators that remember the previous word must still treat each on its own
+		p.set_word(k++, Y);
+		p.set_word(k++, W(op_of("CBRANCH"), r, 0, (int)((idx % 16) << 4), 0x00020000u << (idx % 5)));
+		p.set_word(k++, X);
 	} });
 	// ---- counter thresholds: exactly k effective IMUL_RCP / exactly k large immediates, rest no-op
 	{
